@@ -12,6 +12,8 @@ S2  the convergence blend is honest: the reported error bounds the residual of t
 S3  eigh variant: X symmetric; with a witnessed 2x2 decomposition X^p (A + dI) = I
 S4  one power-iteration body step: Rayleigh quotient s <= every lambda with lambda I - A >= 0
 S5  all-padding input returns exactly 0 with error 0
+S6  LOBPCG-deflated variant (eigenpair routine and both loops cut: arbitrary outputs): the reported error is
+    max|X^p (A + ridge I) - I| for the matrix X actually returned and the ORIGINAL (un-deflated) input A
 """
 from fractions import Fraction
 import json
@@ -49,6 +51,9 @@ def tasks(tier):
     out.append(dict(ob='S3pad', n=3, p=4, pad=1))
   out.append(dict(ob='S4', n=2))
   out.append(dict(ob='S5'))
+  out.append(dict(ob='S6', n=3, p=2, rel=False))
+  if tier == 'thorough':
+    out += [dict(ob='S6', n=3, p=2, rel=True), dict(ob='S6', n=4, p=2, rel=False), dict(ob='S6', n=3, p=3, rel=False)]
   return out
 
 
@@ -287,8 +292,9 @@ def work(t):
       P.results += side.results
       pre = [w1 >= zl(ridge), w2 >= w1]
       goal = mm(mpow(X, p), Rg)
-      P.equal(f'{tag}|X^p (A + ridge I) = I for every rotation U and eigenvalues w >= ridge', goal, np.array([[Fraction(1), Fraction(0)], [Fraction(0), Fraction(1)]], dtype=object),
-              pre, timeout_s=60, kind='stretch')
+      if t.get('tier') == 'thorough':     # stretch attempt (stays undecided with the routine's nested sqrt(pow(.)) form): thorough tier only
+        P.equal(f'{tag}|X^p (A + ridge I) = I for every rotation U and eigenvalues w >= ridge', goal, np.array([[Fraction(1), Fraction(0)], [Fraction(0), Fraction(1)]], dtype=object),
+                pre, timeout_s=10, kind='stretch')
       P.equal(f'{tag}|X symmetric', X, X.T, pre)
       P.reach(f'{tag}|twin', pre, [tt != 0])
   elif ob == 'S3pad':
@@ -377,6 +383,62 @@ def work(t):
     P.prove(f'{tag}|Rayleigh quotient of one power-iteration step never exceeds an upper bound lam of the spectrum (lam I - A >= 0)',
             zl(s_new) <= lam, psd + nz, timeout_s=120)
     P.reach(f'{tag}|twin', psd + nz, [zl(A[0, 1]) != 0])
+  elif ob == 'S6':
+    n, p, rel = t['n'], t['p'], t['rel']
+    tag = f"S6|n={n}|p={p}|{'relative' if rel else 'absolute'} ridge|top-2 deflation"
+    from ..symjax import stubs as ST
+    lin = ds.linalg
+    real_lobpcg = lin.lobpcg_standard
+
+    def stub_lobpcg(A_, X_, m_=100, tol=None):
+      k_ = X_.shape[1]
+      outs = ST.stub_call('lobpcg', [((k_,), A_.dtype), ((A_.shape[0], k_), A_.dtype), ((), jnp.int32)], A_, X_)
+      return outs[0], outs[1], outs[2]
+    lin.lobpcg_standard = stub_lobpcg
+    try:
+      fn = lambda m: ds.matrix_inverse_pth_root(m, p, ridge_epsilon=EPS, relative_matrix_epsilon=rel, lobpcg_topk_precondition=2)
+      jp = jax.make_jaxpr(fn)(jnp.eye(n, dtype=jnp.float32))
+      shape = jax.eval_shape(fn, jnp.eye(n, dtype=jnp.float32))
+    finally:
+      lin.lobpcg_standard = real_lobpcg
+    ctx = Ctx(unroll=0)
+    I = Interp(ctx)
+    Hv = sym_matrix_full('H', n)
+    ev, rv = z3.Real('e_loop'), z3.Real('r_loop')
+    hit = []
+
+    def hook(interp, e_, cc, bc_, carry_):
+      outs_ = [tuple(v.aval.shape) for v in e_.outvars]
+      if len(outs_) == 6 and outs_[1] == (n, n) and outs_[2] == ():      # the retry loop (contains the Newton loop)
+        hit.append(1)
+        return [np.asarray(1), Hv, np.array(ev, dtype=object), np.asarray(9), np.array(rv, dtype=object), np.asarray(False)]
+      return None
+    I.while_hook = hook
+    A = sym_matrix('a', n)
+    outs = I.eval(jp.jaxpr, jp.consts, A)
+    if not hit:
+      return dict(results=[], violations=[], errors=[f'{tag}: retry loop not found'], configs=1)
+    X, metrics = jax.tree_util.tree_unflatten(jax.tree_util.tree_structure(shape), outs)
+    X = toobj(X)
+    rep_err = toobj(metrics.inverse_pth_root_errors).item()
+    if rel:
+      ridge = R.s_mul(f32(EPS), R.s_max(toobj(metrics.max_eigen_value).item(), f32(ds._EPSILON)))
+    else:
+      ridge = R.s_mul(f32(EPS), R.s_max(Fraction(1), f32(ds._EPSILON)))
+    Dm = emap(lambda a_, i_: R.s_add(a_, R.s_mul(ridge, Fraction(i_))), A, np.eye(n, dtype=int).astype(object))
+    E = mm(mpow(X, p), Dm)
+    mx = None
+    for i_ in range(n):
+      for j_ in range(n):
+        v = R.s_abs(R.s_sub(E[i_, j_], Fraction(int(i_ == j_))))
+        mx = v if mx is None else R.s_max(mx, v)
+    P.equal(f'{tag}|reported error = max|X^p (A + ridge I) - I| of the RETURNED X and the ORIGINAL matrix, for arbitrary eigenpair-routine and loop outputs',
+            np.array([rep_err], dtype=object), np.array([mx], dtype=object), timeout_s=20, poly=(p <= 2))
+    P.equal(f'{tag}|diagnostics record the same figure split into diagonal and off-diagonal maxima',
+            np.array([R.s_max(toobj(metrics.inverse_pth_root_diagnostics.max_diag_error).item(),
+                              toobj(metrics.inverse_pth_root_diagnostics.max_off_diag_error).item())], dtype=object),
+            np.array([rep_err], dtype=object), timeout_s=20)
+    P.reach(f'{tag}|twin', [], [zl(A[0, 1]) != 0, zl(Hv[0, 1]) != 0])
   elif ob == 'S5':
     for n in (2, 3):
       for eigh in (False, True):
@@ -389,14 +451,14 @@ def work(t):
   confirmed = None
   for r in P.results:
     r = dict(r)
-    if r['status'] == 'sat' and r.get('kind', 'core') == 'core':
+    if r['status'] in ('sat', 'unknown') and r.get('kind', 'core') == 'core':
       if confirmed is None:
         confirmed = concrete(rp) or False
       if confirmed:
         r['status'] = 'violation'
         path = write_replay(PID, dict(property=PID, replay=rp, observed=confirmed))
         viol.append(dict(key=f"C01:{ob}:{r['name'].split('|')[-1][:40]}", what=confirmed, replay=path))
-      else:
+      elif r['status'] == 'sat':
         r['status'] = 'spurious'
         r['note'] = 'candidate counterexample did not reproduce on the real code'
     res.append(r)
@@ -415,6 +477,8 @@ def concrete(rp):
     except Exception as ex:
       return f'matrix_inverse_pth_root on a {n}x{n} matrix (padding_start={rp["pad"]}, eigh={rp["eigh"]}) raises {type(ex).__name__}: {ex}'
     return None
+  if ob == 'S6':
+    return concrete_lobpcg(rp)
   n = rp.get('n', 2)
   p = rp.get('p', 2)
   pad = rp.get('pad', 0)
@@ -451,6 +515,29 @@ def concrete(rp):
   return None
 
 
+def concrete_lobpcg(rp):
+  """real LOBPCG-deflated routine (float32) on random SPD matrices: reported error vs residual of the returned X in float64"""
+  from precondition import distributed_shampoo as ds
+  rng = np.random.RandomState(0)
+  p = rp.get('p', 2)
+  for n, topk in ((11, 2), (16, 3), (16, 2), (24, 3)):
+    for cond in (10.0, 1e3):
+      Q, _ = np.linalg.qr(rng.randn(n, n))
+      w = np.geomspace(1.0, cond, n)
+      S = (Q * w) @ Q.T
+      S = (S + S.T) / 2
+      X, m = ds.matrix_inverse_pth_root(jnp.asarray(S, jnp.float32), p, ridge_epsilon=1e-6, relative_matrix_epsilon=rp.get('rel', False),
+                                        lobpcg_topk_precondition=topk)
+      X = np.asarray(X, np.float64)
+      err = float(m.inverse_pth_root_errors)
+      ridge = 1e-6 * (max(float(m.max_eigen_value), 1e-16) if rp.get('rel', False) else 1.0)
+      res = np.abs(np.linalg.matrix_power(X, p) @ (S + ridge * np.eye(n)) - np.eye(n)).max()
+      if np.isfinite(err) and abs(res - err) > 0.05 * max(res, err) + 1e-3 * cond:
+        return (f'LOBPCG-deflated root (n={n}, top-{topk}, p={p}, cond={cond:g}): reported error {err:.4g} but max|X^p (A + ridge I) - I| of the '
+                f'returned X is {res:.4g}')
+  return None
+
+
 def replay(path):
   d = json.load(open(path))
   what = concrete(d['replay'])
@@ -473,12 +560,14 @@ def run(rep):
       'bound of the spectrum; S5 all-padding input returns exactly 0.  Consequence in exact arithmetic: at loop exit the reported '
       'error EQUALS max|X^p (A + dI) - I|.')
   rep.encode('precondition.distributed_shampoo.matrix_inverse_pth_root (_iter_body, _outer_body_fn, blend)/matrix_inverse_pth_root_eigh/'
-             'power_iteration/mat_power', 'precondition/distributed_shampoo.py')
+             'power_iteration/mat_power/InversePthRootDiagnostics.create/_pth_root_difference', 'precondition/distributed_shampoo.py')
   ts = tasks(rep.tier)
-  rep.bounds = dict(tasks=len(ts), n=[1, 2, 3], p=sorted({t['p'] for t in ts if 'p' in t}), padding=[0, 1], loop='one body step from an arbitrary Inv-state (any iteration count)')
-  rep.stubs = ['pow(z, 1/p) and sqrt as uninterpreted functions with per-term axioms', 'eigh: free outputs (symmetry) / witnessed 2x2 rotation (S3)']
+  for t in ts:
+    t['tier'] = rep.tier
+  rep.bounds = dict(tasks=len(ts), n=[1, 2, 3, 4], p=sorted({t['p'] for t in ts if 'p' in t}), padding=[0, 1], loop='one body step from an arbitrary Inv-state (any iteration count)')
+  rep.stubs = ['pow(z, 1/p) and sqrt as uninterpreted functions with per-term axioms', 'S6: jax lobpcg_standard -> arbitrary outputs; retry loop (with the Newton loop inside) -> arbitrary outputs; exp/log uninterpreted', 'eigh: free outputs (symmetry) / witnessed 2x2 rotation (S3)']
   rep.assumptions = ['exact real arithmetic', 'absolute ridge (relative_matrix_epsilon=False) so that the ridge is a constant; the estimate that scales it is S4',
                      'H = h0 I + h1 D (+ h2 D^2) parametrises the matrices commuting with D that the iteration generates']
-  rep.outside = ['rounding slack proportional to the condition number', 'convergence within 100 iterations', 'LOBPCG deflation', 'compute dtype',
+  rep.outside = ['rounding slack proportional to the condition number', 'convergence within 100 iterations', 'quality of the LOBPCG eigenpairs and whether deflation lowers the condition number (only the honesty of the reported figure is encoded, S6)', 'compute dtype',
                  'finiteness of X in floating point']
   run_tasks('vp.props.c01', 'work', ts, report=rep)
